@@ -12,7 +12,7 @@ COQ_IMPORTS = ("From Synnax Require Import Common.Base Cesium.Store Cesium.Index
                "Cesium.UnaryIter Cesium.UnaryWrite Cesium.Read Monitors.Mon_C01.")
 COQ_EXTRA = "Local Open Scope Z_scope."
 CASE_TYPE = "case_t"
-COUNTS = {"quick": 1200, "thorough": 20000}
+COUNTS = {"quick": 2000, "thorough": 20000}
 SHARD = 60
 OPS_KEY = "ops"
 RULE = ("histories through the public cesium API: 1-3 index channels x 0-3 data channels (int64/uint8/float32/string/json), "
@@ -32,8 +32,11 @@ PARTIAL = ("C01_read_exact_partial is proved for every stored layout satisfying 
            "data domains within contiguous runs of index domains, index rollover inside a data domain included; satisfied by every "
            "generated history — see layout_guard_sample); that every legal history produces such a layout whose content equals "
            "`committed h` (write->layout refinement: insert/update of the domain index, rollover, groups not writing their index) "
-           "is NOT proved: it is observed on every run (model layout vs implementation reads, implementation reads vs committed h). "
-           "Proved on the write side: uncommitted writes, Close and Reopen change no read (C01_uncommitted_invisible).")
+           "is proved end to end only for ONE writer session on a fresh database with an index and one data channel of any type, any "
+           "frames/commit points, no rollover (C01_single_session_committed_partial: every step succeeds and every read equals "
+           "filter-by-range of committed h); for several sessions (incl. out of time order), rollover and groups not writing their "
+           "index it is observed on every run (model layout vs implementation reads, implementation reads vs committed h). Also "
+           "proved on the write side: uncommitted writes, Close and Reopen change no read (C01_uncommitted_invisible).")
 
 
 def c_hop(o):
@@ -221,7 +224,9 @@ LEVEL_TEXT = ("Machine-checked Coq theorems over an executable Gallina model of 
               "(DB.Read = SeekFirst; Next(TimeSpanMax)* over unary iterators, index Distance/search): for every stored layout satisfying the "
               "decidable guard layout_ok and every read range, DB.Read of a channel returns exactly the stored samples whose index stamps lie "
               "in the range, each once, ascending (C01_read_exact_partial, with layer theorems search_spec, distance_count, slice_exact); a "
-              "Write without commit, Close and Reopen change no read (C01_uncommitted_invisible). The abstract specification `committed h` "
+              "Write without commit, Close and Reopen change no read (C01_uncommitted_invisible); for one writer session (any frames, any "
+              "commit points, any data type kind) the history itself is refined: every step succeeds and every read returns exactly "
+              "filter-by-range of `committed h` (C01_single_session_committed_partial, by an invariant over the operation list). The abstract specification `committed h` "
               "(samples of successful writes made visible by successful commits) is stated separately from the mechanism. The model is tied "
               "to /repo on every run: generated histories (several writers at disjoint times incl. before existing data, variable-length "
               "types, file-size caps forcing rollover, auto-commit, reopen) are executed on the real cesium.DB through the public API; all "
